@@ -1,4 +1,4 @@
-import SpoxModel.Lemmas.InlineTop
+import SpoxModel.Lemmas.InlineHyg
 import SpoxModel.Generated.InlineFacts
 /-! Property theorems for C08 (only property-level statements and non-vacuity examples live here).
 
@@ -7,7 +7,7 @@ import SpoxModel.Generated.InlineFacts
   (+ `bind_surplus_counterexample` for the pinned tree), `call_type_check`;
 * renaming: `rename_injective`, `rename_injective_repeated` (+ `rename_clash_counterexample` for the
   pinned tree, `rename_fixed_example`);
-* meaning: `inline_sem` (any operator semantics, nested subgraphs capturing outer values, empty
+* meaning: `inline_sem_scope` / `inline_sem` (any operator semantics, nested subgraphs capturing outer values, empty
   optional inputs, initializers, pass-through outputs) (+ `inline_passthrough_counterexample`);
 * purity: `normalise_pure` over the statement list generated from the source; `functions_refused`;
   `output_types_declared`.
@@ -237,6 +237,93 @@ theorem toOnnx_nodes (c : Ctx) (g : Graph) (em : Emitted) (h : toOnnx c (normali
     · rename_i ntbl s2 h2
       simp only [ne_eq, not_true_eq_false, if_false, Except.ok.injEq] at h
       exact ⟨tbl, ntbl, s1, s2, h1, h2, by rw [← h]⟩
+
+/-- **`inline_sem_scope`**: `inline_sem` for the renaming `_Inline.to_onnx` actually builds. In a
+    build scope whose visible value names contain the argument names and the (pairwise distinct)
+    result names, for an outer environment that binds the argument names to `vals` and defines
+    neither the result names nor any name that is not visible: if `to_onnx` does not raise, the
+    emitted nodes define the result names as exactly what `m` computes on `vals` — for every
+    operator semantics, every valid `m` (nested subgraphs, initializers, pass-through outputs, …),
+    whatever the internal names look like — and leave every visible outer name untouched. -/
+theorem inline_sem_scope {V : Type} (sem : OpSem V) (lit : Lit → V)
+    (hc : ∀ l, sem (constOp l) [] [] = some [some (lit l)])
+    (hid : ∀ v : V, sem identityOp [some v] [] = some [some v])
+    (g : Graph) (c : Ctx) (em : Emitted) (vals : List V) (E : Env V) (outs : List (Option V))
+    (hem : toOnnx c (normalise g) = .ok em)
+    -- validity of m
+    (hin : g.inputs.Nodup) (hin0 : "" ∉ g.inputs) (hout : g.outputs.Nodup) (hout0 : "" ∉ g.outputs)
+    (hA : ∀ x ∈ Node.assignedL g.nodes, x ∉ g.inputs)
+    -- the scope at the call
+    (hal : c.argNames.length = g.inputs.length) (hrl : c.resNames.length = g.outputs.length)
+    (hrn : c.resNames.Nodup) (hu0 : "" ∉ c.var.used)
+    (hau : ∀ a ∈ c.argNames, a ∈ c.var.used)
+    (hru : ∀ r ∈ c.resNames, r ∈ c.var.used ∧ r ∉ c.argNames)
+    -- the outer environment
+    (hlen : g.inputs.length = vals.length)
+    (hE : ∀ i (h : i < c.argNames.length) (h' : i < vals.length), E.get c.argNames[i] = some vals[i])
+    (hEf : ∀ n, n ∉ c.var.used → E n = none) (hEr : ∀ r ∈ c.resNames, E r = none)
+    (hev : evalModel sem lit g vals = some outs) :
+    ∃ E', evalNodes sem lit em.nodes E = some E' ∧ c.resNames.map E'.get = outs ∧
+      ∀ n ∈ c.var.used, n ∉ c.resNames → E' n = E n := by
+  obtain ⟨tbl, ntbl, s1, s2, h1, _, hnodes⟩ := toOnnx_nodes c g em hem
+  obtain ⟨r1, r2, _, r4⟩ := rename_injective _ _ _ _ _ h1
+  have hne : ∀ x ∈ c.var.used, x ≠ "" := fun x hx e => hu0 (e ▸ hx)
+  have ht : TblOk c.var.used ((normalise g).valueReqs.filter fun n =>
+      !(g.inputs.contains n) && !(g.outputs.contains n)) tbl :=
+    ⟨r1, fun a ha hane => ⟨(r2 a ha hane).1, (r2 a ha hane).2.1⟩, r4⟩
+  have hau' : ∀ a ∈ c.argNames, a ∈ c.var.used ∧ a ≠ "" := fun a ha => ⟨hau a ha, hne a (hau a ha)⟩
+  have hru' : ∀ r ∈ c.resNames, r ∈ c.var.used ∧ r ≠ "" ∧ r ∉ c.argNames :=
+    fun r hr => ⟨(hru r hr).1, hne r (hru r hr).1, (hru r hr).2⟩
+  have hy := rho_hyg g.inputs g.outputs c.argNames c.resNames c.var.used _ tbl ht hal hrl hin0 hout0
+    hrn hau' hru'
+  have hrel := rho_rel g.inputs g.outputs c.argNames c.resNames c.var.used _ tbl ht hal hrl hin hin0
+    hout0 vals hlen E hE hEf hEr
+  obtain ⟨E', e1, e2, e3⟩ := inline_sem sem lit hc hid g
+    (rho g.inputs g.outputs c.argNames c.resNames tbl) (tblGet ntbl) c.argNames c.resNames vals E outs
+    (fun n hn => by unfold rho; rw [if_pos hn])
+    (fun n hn hni => by unfold rho; rw [if_neg hni, if_pos hn])
+    hy hrel hA hin hin0 hlen hout hrl hrn (fun r hr => ⟨(hru' r hr).2.1, (hru' r hr).2.2⟩) hev
+  refine ⟨E', by rw [hnodes]; exact e1, e2, ?_⟩
+  intro n hn hnr
+  apply e3 n _ hnr
+  -- a visible name is not the image of an assigned name
+  intro hm
+  obtain ⟨x, hx, hxe⟩ := List.mem_map.mp hm
+  have hxS : x ∈ (normalise g).valueReqs := by
+    obtain ⟨inputs, inits, nodes, outputs, vi⟩ := g
+    simp only [normalise, Graph.valueReqs, List.mem_append]
+    refine Or.inl (Or.inl (Or.inr ?_))
+    -- outputs of nodes are among their requests
+    have : ∀ (ns : List Node) (y : String), y ∈ Node.outsL ns → y ∈ Node.valueReqsL ns := by
+      intro ns
+      induction ns with
+      | nil => intro y hy; cases hy
+      | cons nd ns ih =>
+        obtain ⟨nm, op, ins, os, subs⟩ := nd
+        intro y hy
+        simp only [Node.outsL, Node.outs, List.mem_append] at hy
+        simp only [Node.valueReqsL, Node.valueReqs, List.mem_append]
+        rcases hy with h | h
+        · exact Or.inl (Or.inl (Or.inr h))
+        · exact Or.inr (ih y h)
+    exact this _ x hx
+  have hxI : x ∉ g.inputs := by
+    intro hxi
+    obtain ⟨inputs, inits, nodes, outputs, vi⟩ := g
+    simp only [normalise, Graph.nodes, preamble, Graph.inits, Graph.inputs] at hx hxi hA
+    have := outsL_sub_assignedL _ x hx
+    rw [assignedL_append, assignedL_consts, List.mem_append] at this
+    rcases this with h | h
+    · obtain ⟨p, hp, rfl⟩ := List.mem_map.mp h
+      have := (List.mem_filter.mp hp).2
+      simp at this
+      exact this hxi
+    · exact hA x h hxi
+  cases kind_of g.inputs g.outputs c.argNames c.resNames c.var.used _ tbl ht hal hrl hin0 hout0 x hxS with
+  | arg h => exact hxI h
+  | res _ _ hi e => rw [e] at hxe; exact hnr (hxe ▸ List.getElem_mem hi)
+  | fresh _ _ _ hf _ => rw [hxe] at hf; exact hf hn
+  | empty _ e => rw [e] at hxe; exact hu0 (hxe ▸ hn)
 
 /-- a small integer semantics for the examples -/
 def exSem : OpSem Int := fun op ins _ =>
